@@ -530,25 +530,33 @@ def run_case(case, driver, npad, listlen, obsfail, idtag="", host=False):
         # attempt runs under a SIGALRM time limit; signals need the main thread, so never in pooled runs
         host = host and not pooled and not case.get("arch")
         rec = Recorder(prog, pooled, obsfail)
-        shared = driver.endswith("s") or driver in ("forced", "run", "closure", "group", "afterincr") or \
+        shared = driver.endswith("s") or driver in ("forced", "run", "closure", "group", "afterincr", "rerun") or \
             any(p["seeded"] for p in case["prog"])
 
-        def mkbroker():
-            b = dr.Broker()
-            b.store_skips = bool(case["ss"])
+        def observe(b):
             b.add_observer(rec.observer)
             rec.add_typed(b)
             if obsfail:
                 for o in rec.extra_observers():
                     b.add_observer(o)
-            if case.get("arch"):
-                b[SerializedArchiveContext] = SerializedArchiveContext(root="/")
-            if host:
-                b[HostContext] = HostContext()
+
+        def supply(b):
             for c in range(1, prog.n + 1):
                 if case["prog"][c - 1]["seeded"]:
                     # a seeded component never runs, so its (unused) outcome field picks the seed value
                     b[prog.comp[c]] = None if case["prog"][c - 1]["outc"] == "none" else Val("seed", c)
+
+        def mkbroker(bare=False):
+            b = dr.Broker()
+            b.store_skips = bool(case["ss"])
+            if bare:
+                return b
+            observe(b)
+            if case.get("arch"):
+                b[SerializedArchiveContext] = SerializedArchiveContext(root="/")
+            if host:
+                b[HostContext] = HostContext()
+            supply(b)
             if case.get("arch") and prog.variant % 2 == 0:
                 # the analysed archive also holds (other) values for the components the caller supplied: loading
                 # it into the caller's broker (Hydration.hydrate, as insights.process_dir does) must keep the
@@ -592,8 +600,50 @@ def run_case(case, driver, npad, listlen, obsfail, idtag="", host=False):
         workers = 1
         escaped = None
         observed = set()
+        miss0 = [dict(NOMISS) for _ in range(npad)]
         try:
-            if driver == "forced":
+            if driver == "rerun":
+                # the broker has a history: an earlier evaluation, made before the caller supplied its values,
+                # left missing-dependency reports in it (the insights shell, insights-inspect and callers that
+                # add inputs and evaluate again work like this).  The earlier evaluation covers the components
+                # that cannot produce anything then (at least one required dependency or group, not a rule:
+                # a rule's skip response is a value), so the evaluation that is observed starts from the
+                # supplied values plus the reports, which the trace carries as its initial `missing`.
+                b = mkbroker(bare=True)
+                first = {}
+                for c in range(1, prog.n + 1):
+                    p = case["prog"][c - 1]
+                    o = prog.comp[c]
+                    if p["ingraph"] and not p["seeded"] and not isinstance(o, RegistryPoint) and p["kind"] != "rule" and \
+                            any(it["t"] in ("req", "grp") for it in p["decl"]):
+                        first[o] = set(dr.get_dependencies(o))
+                if not first:
+                    return None
+                dr.run_components(list(dr.run_order(first)), first, b)
+                if prog.log or any(prog.cid(k) for k in b.instances):
+                    return None     # something did run in the earlier evaluation: not the history meant here
+                prog.log[:] = []
+                prog.elcount.clear()
+                for c in range(1, prog.n + 1):
+                    mr = b.missing_requirements.get(prog.comp[c])
+                    if mr is not None:
+                        miss0[c - 1] = {"set": True, "mr": [prog.cid(x) for x in mr[0]],
+                                        "mg": [[prog.cid(x) for x in g] for g in mr[1]]}
+                if host:
+                    b[HostContext] = HostContext()
+                supply(b)
+                observe(b)
+                orig_rc = dr.run_components
+
+                def rc_wrapper(ordered, components, broker):
+                    rec.start_sub(components, broker)
+                    return orig_rc(ordered, components, broker)
+                dr.run_components = rc_wrapper
+                try:
+                    dr.run(graph, b)
+                finally:
+                    dr.run_components = orig_rc
+            elif driver == "forced":
                 b = mkbroker()
                 order = [prog.comp[a["c"]] for a in case["att"]]
                 rec.start_sub(graph, b)
@@ -666,12 +716,12 @@ def run_case(case, driver, npad, listlen, obsfail, idtag="", host=False):
             rec.events.append({"ev": "escaped", "exc": escaped})
         else:
             rec.end()
-        mode = "single" if driver in ("forced", "run", "closure", "group", "afterincr") else ("pool" if pooled else "incr")
+        mode = "single" if driver in ("forced", "run", "closure", "group", "afterincr", "rerun") else ("pool" if pooled else "incr")
         return {"id": "%s/%s%s%s" % (case["id"], driver, idtag, "/obsfail" if obsfail else ""),
                 "final": None if escaped else rec.final(),
                 "prog": prog.registered(npad, observed if driver in ("closure", "afterincr") else None),
                 "closure": driver in ("closure", "afterincr"), "strict": True, "arch": bool(case.get("arch")),
-                "host": bool(host),
+                "host": bool(host), "miss0": miss0,
                 "ss": bool(case["ss"]), "mode": mode,
                 "workers": max(workers, len(rec.threads), 1), "events": rec.events}
     finally:
@@ -697,13 +747,19 @@ def main():
                 continue
             if drv != "forced" and not any(p["ingraph"] for p in case["prog"]):
                 continue    # dr.run({}) means "run the default group", not "run nothing"
+            if drv == "rerun" and (case.get("arch") or case.get("dup")):
+                continue
             if case.get("arch") and drv not in ("run", "closure", "afterincr"):
                 continue    # the pruning for archive contexts is done by dr.run in a single pass
             if drv == "group" and not all(p["ingraph"] for p in case["prog"]):
                 continue
             n += 1
-            traces.append(run_case(case, drv, inp["npad"], inp["listlen"], bool(every and n % every == 0),
-                                   inp.get("idtag", ""), host=(n % 2 == 0)))
+            t = run_case(case, drv, inp["npad"], inp["listlen"], bool(every and n % every == 0),
+                         inp.get("idtag", ""), host=(n % 2 == 0))
+            if t is None:
+                n -= 1
+                continue
+            traces.append(t)
     with open(sys.argv[2], "w") as f:
         json.dump({"traces": traces, "stats": {"executions": n}}, f, separators=(",", ":"))
 
